@@ -11,8 +11,29 @@ global size_of usize == 8;
 #[verifier::external_body]
 pub fn lerp_face(v1: Face, v2: Face, j: usize, segments: usize) -> Face { unimplemented!() }
 
+//@extract type Pentagon from src/geometry/pentagon.rs
+//@end
+//@extract type Triangle from src/geometry/pentagon.rs
+//@end
 //@extract struct PentagonShape from src/geometry/pentagon.rs
 //@end
+
+// std contract of <[T]>::to_vec on a fixed-size array (ASSUMED): same length
+#[verifier::external_body]
+pub fn arr5_to_vec(a: Pentagon) -> (r: Vec<Face>) ensures r@.len() == 5, { a.to_vec() }
+#[verifier::external_body]
+pub fn arr3_to_vec(a: Triangle) -> (r: Vec<Face>) ensures r@.len() == 3, { a.to_vec() }
+
+// `for vertex in &mut self.vertices { *vertex = Face::new(<float expression of *vertex>); }` : an in-place map over the
+// vertices (no integer content; Verus has no specification for slice::IterMut).  ASSUMED: the length is unchanged.
+#[verifier::external_body]
+pub fn map_vertices_in_place(v: &mut Vec<Face>, kind: u8, arg: Face)
+    ensures final(v)@.len() == old(v)@.len(),
+{ unimplemented!() }
+#[verifier::external_body]
+pub fn face_of_scale(scale: f64) -> Face { unimplemented!() }
+#[verifier::external_body]
+pub fn face_zero() -> Face { unimplemented!() }
 
 //# tags=C11
 impl PentagonShape {
@@ -22,10 +43,63 @@ impl PentagonShape {
     #[verifier::external_body]
     fn is_winding_correct(&self) -> bool { unimplemented!() }
 
+    // first five vertices as a fixed array (loop over .iter().enumerate().take(5)): no counting content
+    #[verifier::external_body]
+    pub fn get_vertices(&self) -> Pentagon { unimplemented!() }
+
     #[verifier::external_body]
     fn clone_shape(&self) -> (r: PentagonShape)
         ensures r.nverts() == self.nverts(),
     { unimplemented!() }
+
+//@extract fn new from src/geometry/pentagon.rs impl=PentagonShape ret=r tags=C11
+//@rewrite "vertices: vertices.to_vec()," => "vertices: arr5_to_vec(vertices),"
+//@rewrite "pentagon.vertices.reverse();" => "vec_reverse_face(&mut pentagon.vertices);"
+//@spec
+ensures
+    r.nverts() == 5,                                                                // [C11:PentagonShape.new.count]
+//@end
+
+//@extract fn new_triangle from src/geometry/pentagon.rs impl=PentagonShape ret=r tags=C11
+//@rewrite "vertices: vertices.to_vec()," => "vertices: arr3_to_vec(vertices),"
+//@rewrite "pentagon.vertices.reverse();" => "vec_reverse_face(&mut pentagon.vertices);"
+//@spec
+ensures
+    r.nverts() == 3,                                                                // [C11:PentagonShape.new_triangle.count]
+//@end
+
+//@extract fn scale from src/geometry/pentagon.rs impl=PentagonShape ret=r tags=C11
+//@rewrite "for vertex in &mut self.vertices {\n            *vertex = Face::new(vertex.x() * scale, vertex.y() * scale);\n        }" => "map_vertices_in_place(&mut self.vertices, 0, face_of_scale(scale));"
+//@spec
+ensures
+    r.nverts() == old(self).nverts(),                                               // [C11:PentagonShape.scale.count]
+    *final(r) == *final(self),                                                      // [C11:PentagonShape.scale.returns-self]
+//@end
+
+//@extract fn rotate180 from src/geometry/pentagon.rs impl=PentagonShape ret=r tags=C11
+//@rewrite "for vertex in &mut self.vertices {\n            *vertex = Face::new(-vertex.x(), -vertex.y());\n        }" => "map_vertices_in_place(&mut self.vertices, 1, face_zero());"
+//@spec
+ensures
+    r.nverts() == old(self).nverts(),                                               // [C11:PentagonShape.rotate180.count]
+    *final(r) == *final(self),                                                      // [C11:PentagonShape.rotate180.returns-self]
+//@end
+
+//@extract fn reflect_y from src/geometry/pentagon.rs impl=PentagonShape ret=r tags=C11
+//@rewrite "for vertex in &mut self.vertices {\n            *vertex = Face::new(vertex.x(), -vertex.y());\n        }" => "map_vertices_in_place(&mut self.vertices, 2, face_zero());"
+//@rewrite "self.vertices.reverse();" => "vec_reverse_face(&mut self.vertices);"
+//@spec
+ensures
+    r.nverts() == old(self).nverts(),                                               // [C11:PentagonShape.reflect_y.count]
+    *final(r) == *final(self),                                                      // [C11:PentagonShape.reflect_y.returns-self]
+//@end
+
+//@extract fn translate from src/geometry/pentagon.rs impl=PentagonShape ret=r tags=C11
+//@rewrite "for vertex in &mut self.vertices {\n            *vertex = Face::new(vertex.x() + translation.x(), vertex.y() + translation.y());\n        }" => "map_vertices_in_place(&mut self.vertices, 3, translation);"
+//@spec
+ensures
+    r.nverts() == old(self).nverts(),                                               // [C11:PentagonShape.translate.count]
+    *final(r) == *final(self),                                                      // [C11:PentagonShape.translate.returns-self]
+//@end
 
 //@extract fn from_vertices from src/geometry/pentagon.rs impl=PentagonShape ret=r tags=C11
 //@rewrite "pentagon.vertices.reverse();" => "vec_reverse_face(&mut pentagon.vertices);"
@@ -43,7 +117,8 @@ ensures
 //@extract fn split_edges from src/geometry/pentagon.rs impl=PentagonShape ret=r tags=C11,C14
 //@fnattr #[verifier::loop_isolation(false)]
 //@rewrite "return self.clone();" => "return self.clone_shape();"
-//@rewrite "let t = j as f64 / segments as f64;\n                let interpolated = Face::new(\n                    v1.x() + t * (v2.x() - v1.x()),\n                    v1.y() + t * (v2.y() - v1.y()),\n                );" => "let interpolated = lerp_face(v1, v2, j, segments);"
+//@rewrite? "let $t = $j as f64 / segments as f64;\n let $ip = Face::new(\n $v1.x() + $t * ($v2.x() - $v1.x()),\n $v1.y() + $t * ($v2.y() - $v1.y()),\n );" => "let $ip = lerp_face($v1, $v2, $j, segments);"
+//@rewrite? "let $t = $j as f64 / $den;\n let $ip = Face::new(\n $v1.x() + $t * ($v2.x() - $v1.x()),\n $v1.y() + $t * ($v2.y() - $v1.y()),\n );" => "let $ip = lerp_face($v1, $v2, $j, segments);"
 //@spec
 ensures
     r.nverts() == self.nverts() * (if segments <= 1 { 1nat } else { segments as nat }),   // [C11:split_edges.count]
@@ -65,6 +140,110 @@ proof {
 }
 //@end
 }
+
+
+// =====================================================================================================
+// src/core/tiling.rs : which shape (how many vertices) each tiling call hands out.  Discharges the counting
+// contracts that unit `glue` assumes for get_pentagon_vertices / get_quintant_vertices / get_face_vertices /
+// get_quintant_polar.  Float content (matrix products, basis change, 2^-r scaling, rotation tables) is opaque.
+//# tags=C11
+//@extract type Quaternary from src/core/hilbert.rs
+//@end
+//@extract type Flip from src/core/hilbert.rs
+//@end
+//@extract const YES from src/core/hilbert.rs
+//@end
+//@extract const NO from src/core/hilbert.rs
+//@end
+#[verifier::external_body] #[derive(Clone, Copy)] pub struct IJ { _p: f64 }
+//@extract struct Anchor from src/core/hilbert.rs
+//@end
+#[verifier::external_body] #[derive(Clone, Copy)] pub struct Mat2 { _p: f64 }
+#[verifier::external_body] #[derive(Clone, Copy)] pub struct Polar { _p: f64 }
+
+pub open spec fn flip_ok(f: Flip) -> bool { f == -1 || f == 1 }
+
+// core/pentagon.rs lazily built constants: PentagonShape::new([a, b, c, d, e]) and
+// PentagonShape::new([u, v, w, 0, 0]) - both FIVE-vertex shapes (ASSUMED here; PentagonShape::new is verified above)
+#[verifier::external_body]
+pub fn pentagon() -> (r: &'static PentagonShape) ensures r.nverts() == 5, { unimplemented!() }
+#[verifier::external_body]
+pub fn triangle() -> (r: &'static PentagonShape) ensures r.nverts() == 5, { unimplemented!() }
+#[verifier::external_body]
+pub fn v() -> Face { unimplemented!() }
+#[verifier::external_body]
+pub fn shift_left() -> Face { unimplemented!() }
+#[verifier::external_body]
+pub fn shift_right() -> Face { unimplemented!() }
+#[verifier::external_body]
+pub fn quintant_rotations() -> [Mat2; 5] { unimplemented!() }
+// float expressions (no integer content)
+#[verifier::external_body]
+pub fn mat_apply(m: &Mat2, p: Face) -> Face { unimplemented!() }
+#[verifier::external_body]
+pub fn basis_apply(offset: IJ) -> Face { unimplemented!() }
+#[verifier::external_body]
+pub fn f_inv_pow2(resolution: i32) -> f64 { unimplemented!() }
+#[verifier::external_body]
+pub fn polar_gamma(p: Polar) -> f64 { unimplemented!() }
+// `(gamma / TWO_PI_OVER_5).round() as i32` : ASSUMED within -3..=3 (gamma is an atan2 result, |gamma| <= pi)
+#[verifier::external_body]
+pub fn gamma_fifths(gamma: f64) -> (r: i32) ensures -3 <= r <= 3, { unimplemented!() }
+
+//@extract fn transform_pentagon from src/core/tiling.rs tags=C11
+//@fnattr #[verifier::loop_isolation(false)]
+//@rewrite "for vertex in vertices {" => "for __i in 0..vertices.len() {\n        let vertex = &vertices[__i];"
+//@rewrite "let transformed_x = matrix.m00 * vertex.x() + matrix.m01 * vertex.y();\n        let transformed_y = matrix.m10 * vertex.x() + matrix.m11 * vertex.y();\n        transformed_vertices.push(Face::new(transformed_x, transformed_y));" => "transformed_vertices.push(mat_apply(matrix, *vertex));"
+//@spec
+ensures
+    final(pentagon).nverts() == old(pentagon).nverts(),                              // [C11:transform_pentagon.count]
+//@loop 1
+invariant
+    vertices@.len() == old(pentagon).nverts(),
+    transformed_vertices@.len() == __i,
+//@end
+
+//@extract fn get_pentagon_vertices from src/core/tiling.rs ret=r tags=C11,C14
+//@rewrite "triangle().clone()" => "triangle().clone_shape()"
+//@rewrite "pentagon().clone()" => "pentagon().clone_shape()"
+//@rewrite "let basis_mat = basis();\n    let translation_x = basis_mat.m00 * anchor.offset.x() + basis_mat.m01 * anchor.offset.y();\n    let translation_y = basis_mat.m10 * anchor.offset.x() + basis_mat.m11 * anchor.offset.y();\n    let translation = Face::new(translation_x, translation_y);" => "let translation = basis_apply(anchor.offset);"
+//@rewrite "pentagon_shape.scale(1.0 / (2.0_f64.powi(resolution)));" => "pentagon_shape.scale(f_inv_pow2(resolution));"
+//@spec
+requires
+    quintant < 5,
+    flip_ok(anchor.flips[0]) && flip_ok(anchor.flips[1]),
+ensures
+    r.nverts() == 5,                                                                // [C11:get_pentagon_vertices.count]
+//@end
+
+//@extract fn get_quintant_vertices from src/core/tiling.rs ret=r tags=C11,C14
+//@spec
+requires
+    quintant < 5,
+ensures
+    r.nverts() == 3,                                                                // [C11:get_quintant_vertices.count]
+//@end
+
+//@extract fn get_face_vertices from src/core/tiling.rs ret=r tags=C11,C14
+//@fnattr #[verifier::loop_isolation(false)]
+//@rewrite "for rotation in &rotations {" => "for __i in 0..5usize {\n        let rotation = &rotations[__i];"
+//@rewrite "let transformed_x = rotation.m00 * v_vertex.x() + rotation.m01 * v_vertex.y();\n        let transformed_y = rotation.m10 * v_vertex.x() + rotation.m11 * v_vertex.y();\n        vertices.push(Face::new(transformed_x, transformed_y));" => "vertices.push(mat_apply(rotation, v_vertex));"
+//@rewrite "vertices.reverse();" => "vec_reverse_face(&mut vertices);"
+//@spec
+ensures
+    r.nverts() == 5,                                                                // [C11:get_face_vertices.count]
+//@loop 1
+invariant
+    vertices@.len() == __i,
+//@end
+
+//@extract fn get_quintant_polar from src/core/tiling.rs ret=r tags=C14
+//@rewrite "polar.gamma().0" => "polar_gamma(polar)"
+//@rewrite "(gamma / (TWO_PI_OVER_5).0).round() as i32" => "gamma_fifths(gamma)"
+//@spec
+ensures
+    r < 5,                                                                          // [C14:get_quintant_polar.in-range]
+//@end
 
 #[verifier::external_body]
 pub fn vec_reverse_face(v: &mut Vec<Face>)
